@@ -64,7 +64,7 @@ class C02(PropCheck):
             'boxes, footnotes, breaks; pages down to one line) rendered and written to PDF: outcome kind with the '
             'innermost weasyprint frame vs the model "returns"; non-trivial = uses at least 3 features')
         for _ in range(run.n(100, 3000)):
-            doc = widegen.gen(run.rng)
+            doc = widegen.gen(run.rng, adversarial=True)
             out = wide_trace.render_outcome(doc['html'])
             sec3.add(sx.line('total'), out, meta={'html': doc['html'], 'features': doc['features']},
                      nontrivial=len(doc['features']) >= 3, tags=doc['features'])
